@@ -331,6 +331,99 @@ func ruleHelperPointerProtection() check.Rule {
 	}
 }
 
+// CHAN-CLOSE-SEND: closing a channel is a write that conflicts with a concurrent send.
+func ruleChanCloseSend() check.Rule {
+	return check.Rule{
+		Name: "CHAN-CLOSE-SEND",
+		Doc:  "for every channel created by a subscribe closure: no close of the channel can run concurrently with a send into it (emission-context relation of C02, teardown included) unless both hold one common lock. A close in the teardown while an upstream callback may be blocked in `ch <- x` is an unsynchronised conflicting access in the sense of the Go memory model (the race detector reports it), whatever recovers the resulting send-on-closed-channel panic",
+		Run: func(c *check.Ctx) {
+			m := c.M
+			h := newHeldDB(m)
+			for _, sc := range m.SCs {
+				armed := c.Armed(sc)
+				info := sc.Pkg.TypesInfo
+				// close operations per channel object (from the model: with their contexts)
+				type acc struct {
+					rec  *model.Rec
+					node ast.Node
+				}
+				closes := map[types.Object][]acc{}
+				for _, op := range sc.SubOps {
+					if op.Method != "close" || op.Call == nil || len(op.Call.Args) != 1 {
+						continue
+					}
+					if id, _ := rootIdent(op.Call.Args[0]); id != nil {
+						closes[objOf(info, id)] = append(closes[objOf(info, id)], acc{&op.Rec, op.Call})
+					}
+				}
+				if len(closes) == 0 {
+					continue
+				}
+				// sends: located syntactically, placed through the function places of the model
+				ast.Inspect(sc.Lit.Body, func(x ast.Node) bool {
+					st, ok := x.(*ast.SendStmt)
+					if !ok {
+						return true
+					}
+					id, _ := rootIdent(st.Chan)
+					if id == nil {
+						return true
+					}
+					ch := objOf(info, id)
+					cl := closes[ch]
+					if len(cl) == 0 {
+						return true
+					}
+					fn := innermostFunc(m, sc.Pkg, st)
+					c.Inc("channel_send_sites", 1)
+					key := fmt.Sprintf("%s/chan-%s/send@%s", sc, ch.Name(), model.CtxKey(placeCtx(sc, fn), placeSlot(sc, fn)))
+					conflict := ""
+					for _, fp := range sc.FnPlaces[fn] {
+						A := placeOfAccess(fp, st)
+						for _, k := range cl {
+							B := model.PlaceOf(k.rec)
+							if conc, why := model.MayRunConcurrently(A, B); conc {
+								common := false
+								hs, hc := h.heldAt(sc.Pkg, st), h.heldAt(sc.Pkg, k.node)
+								for l := range hs {
+									if hc[l] {
+										common = true
+									}
+								}
+								if !common {
+									conflict = fmt.Sprintf("close at %s (%s): %s", c.Prog.Rel(k.node.Pos()), model.CtxKey(k.rec.Ctx, k.rec.Slot), why)
+								}
+							}
+						}
+					}
+					if conflict == "" {
+						if armed {
+							c.OK(key, st.Pos(), "no close of the channel can run concurrently with this send")
+						}
+					} else {
+						c.Report(armed, key, st.Pos(), "this send can run concurrently with a %s, without a common lock: closing a channel while a sender may be blocked in a send is a data race (and the send panics)", conflict)
+					}
+					return true
+				})
+			}
+		},
+	}
+}
+
+func placeCtx(sc *model.SC, fn ast.Node) *model.Ctx {
+	for _, fp := range sc.FnPlaces[fn] {
+		return fp.Ctx
+	}
+	return nil
+}
+
+func placeSlot(sc *model.SC, fn ast.Node) int {
+	for _, fp := range sc.FnPlaces[fn] {
+		return fp.Slot
+	}
+	return -1
+}
+
 func rw(a varAccess) string {
 	switch {
 	case a.atomic:
